@@ -235,6 +235,8 @@ def child(case):
             out['evaluations'] += 1
             nreq += 1
             bump('requests_sent')
+            if method == 'server.add_peer' and isinstance(reply, dict) and reply.get('result') is True:
+                bump('add_peer_requests_accepted')     # source matched: the announced ports / pruning were looked at
             wit = {'request': raw[:600], 'reply': json.dumps(reply)[:300] if reply is not None else None}
             if len(escapes) > n_esc:
                 m, etype, erepr = escapes[-1]
@@ -327,6 +329,7 @@ def run(tier, seed, replay=None):
     rep.floor('requests_sent', c['requests_sent'], 14000)
     rep.floor('error_replies', c['error_replies'], 5000)
     rep.floor('result_replies', c['result_replies'], 2000)
+    rep.floor('add_peer_requests_accepted', c['add_peer_requests_accepted'], 15)
     for m in METHODS:
         if m != 'no.such.method':
             rep.floor(f'err:{m}', c[f'err:{m}'], 5)
